@@ -102,7 +102,7 @@ func joinStates(a, b *TState) *TState {
 		} else if f, ok := b.snaps[v]; ok {
 			n.snaps[v] = f.Join(a.cur)
 		} else {
-			n.linked[v] = true
+			n.snaps[v] = a.cur // read on this path only: its token's fact is this path's
 		}
 	}
 	for v := range b.linked {
@@ -112,7 +112,7 @@ func joinStates(a, b *TState) *TState {
 		if f, ok := a.snaps[v]; ok {
 			n.snaps[v] = f.Join(b.cur)
 		} else {
-			n.linked[v] = true
+			n.snaps[v] = b.cur
 		}
 	}
 	for v, f := range a.snaps {
@@ -217,6 +217,8 @@ type TKAI struct {
 	queue   []tkCtx
 	queued  map[tkCtx]bool
 	nflows  int
+	efacts   map[*ssa.Function]KSet
+	ctxIntra map[*ssa.Function]*flowResult
 }
 
 func (w *World) TKAI() *TKAI {
@@ -1464,4 +1466,53 @@ func (tk *TKAI) statesBefore(res *flowResult, at ssa.Instruction) [2]*TState {
 		}
 	}
 	return out
+}
+
+// entryFact: the join of the current-token facts at all call sites of fn (⊤ for entry points,
+// dynamically called functions without resolved callers, and on recursion).
+func (tk *TKAI) entryFact(fn *ssa.Function) KSet {
+	if tk.efacts == nil {
+		tk.efacts = map[*ssa.Function]KSet{}
+	}
+	if f, ok := tk.efacts[fn]; ok {
+		return f
+	}
+	tk.efacts[fn] = kTop()
+	callers := tk.w.callersOf(fn)
+	if len(callers) == 0 {
+		return kTop()
+	}
+	var f KSet
+	for _, c := range callers {
+		if fnPkgPath(c.Parent()) != modRoot {
+			return kTop()
+		}
+		st := tk.StateBefore(c)
+		if st == nil {
+			continue
+		}
+		f = f.Join(st.cur)
+	}
+	if f.m == nil {
+		f = kTop()
+	}
+	tk.efacts[fn] = f
+	return f
+}
+
+// ReachableUnconsumed: can instruction `at` be reached, from the entry of its function under the
+// facts of its call sites, without any token having been consumed?
+func (tk *TKAI) ReachableUnconsumed(at ssa.Instruction) bool {
+	fn := at.Parent()
+	if tk.ctxIntra == nil {
+		tk.ctxIntra = map[*ssa.Function]*flowResult{}
+	}
+	res, ok := tk.ctxIntra[fn]
+	if !ok {
+		entry := tk.entryFact(fn)
+		ci := &ctxInfo{key: tkCtx{fn: fn, entry: "ctx:" + entry.Key()}, fn: fn, entry: entry, consts: map[int]string{}}
+		res = tk.flow(ci, fn.Blocks[0], [2]*TState{newTState(entry), nil}, nil, nil)
+		tk.ctxIntra[fn] = res
+	}
+	return tk.statesBefore(res, at)[0] != nil
 }
